@@ -227,6 +227,26 @@ class XInterp(C.Interp):
             elif k == "lazy-clone":
                 line = [Sym("lazy-clone"), ins["l"]]
                 push_lazy = self.lazies[ins["l"]].clone()
+            elif k == "lazy-dense":
+                via = ins.get("via", "contiguous")
+                line = [Sym("lazy-dense"), ins["l"], via == "to_tensordict"]
+                push = getattr(self.lazies[ins["l"]], via)()
+            elif k == "lazy-narrow":
+                L = self.lazies[ins["l"]]
+                sd, how = L.stack_dim, ins["how"]
+                if how[0] == "slice":
+                    P = L[(slice(None),) * sd + (slice(how[1], how[2]),)]
+                elif how[0] == "split":
+                    P = L.split(how[1], sd)[how[2]]
+                else:
+                    P = L.chunk(how[1], sd)[how[2]]
+                if not isinstance(P, T()["Lazy"]):
+                    raise TypeError("expected a LazyStackedTensorDict, got %s" % type(P).__name__)
+                ids = [id(m) for m in L.tensordicts]
+                js = [ids.index(id(m)) if id(m) in ids else len(ids) for m in P.tensordicts]   # a member that is a new object: no such index
+                nb, sels = self.lazy_sels(P)
+                line = [Sym("lazy-narrow"), ins["l"], js, nb, sels]
+                push_lazy = P
             elif k == "lazy-flatten-keys":
                 line = [Sym("lazy-flatten-keys"), ins["l"], ins["sep"]]
                 push_lazy = self.lazies[ins["l"]].flatten_keys(ins["sep"])
@@ -301,7 +321,7 @@ SUB_OPS = ["sub-get", "sub-get", "sub-set_", "sub-set_", "sub-update_", "sub-upd
            "sub-set_missing", "base"]
 LAZY_OPS = ["lazy-member", "lazy-get", "lazy-get", "lazy-set_", "lazy-set_", "lazy-update_", "lazy-update_", "lazy-setitem",
             "lazy-setitem", "lazy-fill_", "lazy-zero_", "lazy-unary_", "lazy-unary_", "lazy-clone", "lazy-flatten-keys",
-            "lazy-set_missing", "base"]
+            "lazy-set_missing", "lazy-dense", "lazy-dense", "lazy-narrow", "lazy-narrow", "base"]
 CONV_OPS = ["unary_", "binary_", "set_", "update_", "set_at_", "setitem-scalar", "fill_", "zero_", "view", "gather", "select",
             "exclude", "shallow", "flatten-keys", "clone", "unary", "contiguous", "set", "del"]
 
@@ -491,7 +511,7 @@ def gen_lazy(rng, n_hist, force=None):
     g = _Gen(rng, "lazy")
     it = g.it
     mbs = rng.choice([[3], [2], [2, 3], [3, 2], []])
-    nm = rng.choice([2, 2, 3])
+    nm = rng.choice([1, 1, 2, 2, 3])     # member counts 1..3 (one member: nothing to stack, still a fresh tensor on every read)
     sd = rng.randrange(len(mbs) + 1)
     nested = rng.random() < 0.75
     ms = []
@@ -584,6 +604,21 @@ def gen_lazy(rng, n_hist, force=None):
             return g.emit({"i": "lazy-clone", "l": li})
         if k == "lazy-flatten-keys":
             return g.emit({"i": "lazy-flatten-keys", "l": li, "sep": rng.choice([".", "_"])})
+        if k == "lazy-dense":
+            return g.emit({"i": "lazy-dense", "l": li, "via": rng.choice(["contiguous", "contiguous", "to_tensordict", "densify"])})
+        if k == "lazy-narrow":
+            n = len(L.tensordicts)
+            c = rng.choice(["slice", "slice", "split", "chunk"])
+            if c == "slice":
+                a = rng.randrange(n)
+                how = ["slice", a, rng.choice([a + 1, a + 1, n])]
+            elif c == "split":
+                sz = rng.randint(1, n)
+                how = ["split", sz, rng.randrange((n + sz - 1) // sz)]
+            else:
+                cn = rng.randint(1, n)
+                how = ["chunk", cn, rng.randrange(len(T()["torch"].zeros(n).chunk(cn)))]
+            return g.emit({"i": "lazy-narrow", "l": li, "how": how})
         return None
 
     for _ in range(n_hist):
@@ -809,17 +844,48 @@ def oracle_last(prog):
                             fails.append(("inplace:existing-tensor-does-not-hold-new-value", {"op": k, "key": list(p)},
                                           {"kind": "lazy", "check": "inplace:existing-tensor-does-not-hold-new-value", "op": k}))
                             return fails
-        elif k == "lazy-get":
+        elif k in ("lazy-get", "lazy-dense", "lazy-clone"):
+            # copy class on a stack (get of a leaf, contiguous / to_tensordict / densify, clone), ANY number of members: the result
+            # lives in no storage the caller can reach, and a sentinel written on either side is not seen on the other
             L = it.lazies[last["l"]]
+            nmem = len(L.tensordicts)
+            nl0 = len(it.lazies)
             out = it.xrun(last)
             if out != "ok":
                 return fails
-            g = it.regs[-1] if isinstance(it.regs[-1], torch.Tensor) and len(it.lines) and it.lines[-1][0] == "lazy-get" else None
-            if g is not None and isinstance(L.get(tuple(last["p"])), torch.Tensor):
-                pg = RF.sptr(g)
-                if pg is not None and pg in flats:
-                    fails.append(("copy:result-shares-memory", {"op": "lazy-get"}, {"kind": "lazy", "check": "copy:result-shares-memory", "op": "get"}))
-        elif k in ("sub-clone", "sub-unary", "lazy-clone", "sub-select", "sub-exclude", "sub-get", "sub-shallow", "lazy-flatten-keys"):
+            if k == "lazy-get":
+                if len(it.lazies) != nl0:
+                    return fails            # a nested key: the stack of the members' own nodes (a view)
+                res = [it.regs[-1]]
+            elif k == "lazy-dense":
+                res = [v for _, v in RF.existing(it.regs[-1])]
+            else:
+                res = [v for m in it.lazies[-1].tensordicts for _, v in RF.existing(m)]
+            res = [r for r in res if isinstance(r, torch.Tensor) and r.numel() > 0]
+            sig = {"kind": "lazy", "op": k, "via": last.get("via"), "members": nmem}
+            for p_, f_ in flats.items():
+                if not torch.equal(RF.bits(f_), RF.bits(before[p_])):
+                    fails.append(("out-of-place:wrote-into-held-tensor", {"op": k}, dict(sig, check="out-of-place:wrote-into-held-tensor")))
+                    return fails
+            if any(RF.sptr(r) in flats for r in res):
+                fails.append(("copy:result-shares-memory", {"op": k, "members": nmem}, dict(sig, check="copy:result-shares-memory")))
+                return fails
+            for f_ in flats.values():
+                f_.fill_(RF.S1)
+            if any(bool((r == RF.S1).any()) for r in res):
+                fails.append(("copy:sentinel-written-through-source-seen", {"op": k, "members": nmem},
+                              dict(sig, check="copy:sentinel-written-through-source-seen")))
+                return fails
+            snap = {p_: f_.clone() for p_, f_ in flats.items()}
+            for r in res:
+                try:
+                    r.detach().fill_(RF.S2)
+                except Exception:  # noqa: BLE001
+                    pass
+            if any(not torch.equal(RF.bits(f_), RF.bits(snap[p_])) for p_, f_ in flats.items()):
+                fails.append(("copy:sentinel-written-through-result-reached-held-tensor", {"op": k, "members": nmem},
+                              dict(sig, check="copy:sentinel-written-through-result-reached-held-tensor")))
+        elif k in ("sub-clone", "sub-unary", "sub-select", "sub-exclude", "sub-get", "sub-shallow", "lazy-flatten-keys", "lazy-narrow"):
             # out-of-place: no storage the caller can reach changes
             out = it.xrun(last)
             if out != "ok":
@@ -873,6 +939,8 @@ def _xworker(jobs):
             prog, it = GENS[kind](rng, nh, force)
             rec = {"kind": kind, "seed": seed, "prog": prog, "line": xmodel_line(it), "outs": it.outs, "dump": it.dump()}
             rec["fails"] = oracle_last(prog) if it.outs and it.outs[-1] == "ok" else []
+            # densify() orders the result's keys its own way (not transcribed): such programs are judged by the oracle only
+            rec["oracle_only"] = any(i_["i"] == "lazy-dense" and i_.get("via") == "densify" for i_ in prog)
             out.append(rec)
         except (C._CaseTimeout, MemoryError) as e:
             out.append({"kind": kind, "seed": seed, "error": type(e).__name__})
@@ -894,6 +962,7 @@ XMODEL_TO_DOC = {
     "(mklazy (0) 1 ((0)))": "alloc", "(lazy-member 0 0)": "alloc", '(lazy-get 0 ("a"))': "copy", '(lazy-set_ 0 ("a") 1)': "inplace",
     "(lazy-update_ 0 1)": "inplace", "(lazy-setitem 0 1 1 ())": "inplace", '(lazy-fill_ 0 ("a") 1)': "inplace",
     "(lazy-const_ 0 0)": "inplace", "(lazy-unary_ 0 neg)": "inplace", "(lazy-clone 0)": "copy", '(lazy-flatten-keys 0 ".")': "view",
+    "(lazy-dense 0 f)": "copy", "(lazy-dense 0 t)": "copy", "(lazy-narrow 0 (0) 1 ((0)))": "view",
     "(memmap_ 0)": "conversion", "(share_memory_ 0)": "conversion",
 }
 
@@ -928,8 +997,13 @@ def run_stream(R, nprog):
                 R.count("xprogram:sub:window:" + ("basic" if _is_basic_json(ins["idx"]) else "advanced"))
             if ins["i"] == "mklazy":
                 R.count("xprogram:lazy:stack_dim:%d:members:%d" % (ins["dim"], len(ins["ms"])))
+            if ins["i"] == "lazy-narrow":
+                R.count("xprogram:lazy:narrow:" + ins["how"][0])
         for (label, detail, sig) in p.get("fails", []):
             R.oracle_fail(label, case, detail, sig)
+        if p.get("oracle_only"):
+            R.count("xprogram:lazy:densify-oracle-only")
+            continue
         if not (isinstance(mr, list) and len(mr) == 2 and isinstance(mr[0], list) and mr[0] and mr[0][0] == "outs"):
             R.mismatch("xprogram:model-rejected", case, p["outs"], mr)
             continue
